@@ -4,7 +4,7 @@ from props.util import *
 
 TRUSTED = BASE_TRUSTED + ["ristretto under the group-law hypothesis (implementation-only runs)", "rayon build covered by C19"]
 RULE = ("n in 1..16 trustees: share + proof (scripted RNG), verify_share, combine_pks in all orders for n<=4 (sampled above), "
-        "joint_dec over all factor orders for n<=3, joint_dec_many over ciphertext lists of length 0..5, exhaustive secrets "
+        "joint_dec over all factor orders for n<=3, joint_dec_many over ciphertext lists of length 0..5 and 1100, 150 trustees once, exhaustive secrets "
         "for n<=2 on p=23; omitted / duplicated factor; every output compared with the Gallina model of the crate-private "
         "Keymaker (hook); battery: joint decryption returns the plaintext, the joint key is order independent")
 
@@ -19,7 +19,7 @@ def run(env):
             plans.append((ctx, [a]))
             for b in range(0, 11, 1 if not env.quick else 3):
                 plans.append((ctx, [a, b]))
-        for pstr, ns in (("2039", [1, 2, 3, 4, 7]), (str(P62), [1, 3, 16] if env.quick else list(range(1, 17))), ("2048", [2] if env.quick else [1, 3])):
+        for pstr, ns in (("2039", [1, 2, 3, 4, 7, 150]), (str(P62), [1, 3, 16] if env.quick else list(range(1, 17))), ("2048", [2] if env.quick else [1, 3])):
             ctx2 = "%s:%s" % (fl, pstr); P_, q_, g_ = pq(ctx2)
             for n in ns:
                 plans.append((ctx2, [r.randrange(q_) for _ in range(n)]))
@@ -59,6 +59,8 @@ def run(env):
         P_, q_, g_ = pq(ctx)
         pk = joint[(ctx, tuple(sks))]
         L = r.choice([0, 1, 2, 5]) if len(sks) > 1 else 1
+        if len(sks) == 3 and ctx.endswith(":2039"):
+            L = 1100          # one long ciphertext list: joint_dec_many position by position far beyond any batch size
         ms = [str(rnd_member(r, ctx)) for _ in range(max(L, 1))]
         for m in ms:
             st3.append({"ctx": ctx, "op": "encrypt_r", "args": [pk, m, str(r.randrange(q_))], "_m": m, "_sks": sks, "_L": L, "tag": "encrypt"})
